@@ -206,6 +206,8 @@ func (fd *Client) UpdateTable(input *dynamodb.UpdateTableInput) (*dynamodb.Updat
 		previousDefs[name] = typ
 	}
 
+	restoreIndexes := table.SnapshotIndexes()
+
 	if input.AttributeDefinitions != nil {
 		table.SetAttributeDefinition(mapAttributeValueDefinitionToDynamodb(input.AttributeDefinitions))
 	}
@@ -213,6 +215,8 @@ func (fd *Client) UpdateTable(input *dynamodb.UpdateTableInput) (*dynamodb.Updat
 	for _, change := range input.GlobalSecondaryIndexUpdates {
 		if err := table.ApplyIndexChange(mapGlobalSecondaryIndexUpdateToTypes(change)); err != nil {
 			table.AttributesDef = previousDefs
+
+			restoreIndexes()
 
 			return &dynamodb.UpdateTableOutput{
 				TableDescription: mapTableDescriptionToDynamodb(table.Description(tableName)),
